@@ -42,6 +42,22 @@ CHECKS = {
    technique="exhaustive enumeration of structured hostile inputs (every decoded length 0..=400 behind each header, every token prefix, all strings of 0..6 segments over a 7-element alphabet, 1 MiB strings, hostile payloads, every hex length 0..=200) on all 24 entry points under catch_unwind with overflow checks",
    text="All 24 decrypt/verify/parse entry points plus Key::<N>::try_from(&str) are called on every element of the listed input families; any panic (located by file:line) is a violation, as is a wrong-length hex key reported as success.",
    note="A panic is observed through catch_unwind with overflow-checks on; an abort (allocation failure, stack overflow) would kill the explorer and surface as a machinery error."),
+ "C10": dict(engine="A-choice-tree", design_ref="5/C10",
+   technique="exhaustive enumeration of builder call histories (depth 5 quick / 6 thorough) under a scripted RNG (hook H1) with a differential oracle against the core layer; plus a free-running pass that evaluates the statement's distinctness predicate on N real builds",
+   text="For v1..v4 local and both builder layers, every call history over {new builder, set same/other claims, set footer, build} and every pair of draws differing in one bit: each build consumes exactly one fresh RNG draw of the right length, the token equals the core-layer token for that draw (so, with C08, the wire nonce is the specification's function of a fresh draw) and distinct draws give distinct nonces and tokens. Free-running: N builds with identical claims under one key carry pairwise distinct nonces/tokens, no constant nonce byte. The per-bit frequency clause is computed but is sampling and auxiliary; unpredictability of the OS RNG is not decidable by this family.",
+   note="ring::rand::SystemRandom is trusted as a CSPRNG. The RNG tap is additive (real RNG fills the buffer first). " + A_NOTE),
+ "C11": dict(engine="A-choice-tree", design_ref="5/C11-C12",
+   technique="exhaustive enumeration of the RFC 3339 rendering space of instants around a frozen clock (hook H2) - every UTC offset x fractional-digit form x separator/zone form - each carried by a real token and parsed by the default parser; independent RFC 3339 reference as oracle",
+   text="v4.local: 4 frozen clocks x 16 instants (now, +-1 ns, +-1 s, +-2 s, +60 s ... 1971, 9000) x all 2 879 UTC offsets x fraction forms x {T,t,blank} x {numeric,Z,z,-00:00}; all 8 protocols: reduced rendering grid, non-timestamp exp values of every JSON type, absent claim, the 16 (exp,nbf) combinations, free-running rows with the real clock. Reject iff instant <= now (exact for strict strings, fail-closed for lenient forms), reject non-null non-timestamps, accept otherwise.",
+   note="R4 (own integer-arithmetic RFC 3339 reader) is the oracle. " + A_NOTE),
+ "C12": dict(engine="A-choice-tree", design_ref="5/C11-C12",
+   technique="exhaustive enumeration of the RFC 3339 rendering space of instants around a frozen clock (hook H2), each carried by a real token and parsed by the default parser; independent RFC 3339 reference as oracle",
+   text="Same space as C11 for nbf with the direction reversed: reject iff instant > now, accept iff instant < now (strict strings; either verdict at equality), reject non-null non-timestamps, accept tokens without nbf; the 16 independent (exp, nbf) combinations.",
+   note="R4 (own integer-arithmetic RFC 3339 reader) is the oracle. " + A_NOTE),
+ "C18": dict(engine="A-choice-tree", design_ref="5/C18",
+   technique="exhaustive enumeration of all keys of length 0..=4 over an 8-symbol alphabet plus decorated variants of the registered keys x constructor form x value type, and of the strict RFC 3339 rendering grid for the three time-claim constructors, on the real constructors",
+   text="CustomClaim construction must fail with the reserved-key error iff the key is byte-equal to one of the seven registered keys, for all three constructor forms and four value types, and otherwise keep key and value verbatim (also read back through a built token). Expiration/NotBefore/IssuedAt constructors must accept every strict RFC 3339 string of the grid (8 dates x 5 times x 13 fraction forms x 2 881 offsets) verbatim and reject every listed string that does not start with an ISO 8601 date.",
+   note="R4 decides strictness; strings that merely start with a date are unconstrained. " + A_NOTE),
  "C20": dict(engine="C-lattice", design_ref="5/C20",
    technique="explicit-state enumeration of the feature-subset lattice; cargo build+run of a cfg-gated smoke client per state",
    text="Every configuration of the stated space (quick: 8 singletons, 28 pairs, full set x 3 layers + default + none = 113; thorough: all 767) is built from /repo's working tree and its smoke client run; every enabled (protocol, layer) block must round-trip. Exhaustive over the configuration space the property quantifies over; monotonicity follows because the client source is identical in every configuration.",
@@ -79,7 +95,7 @@ def main():
             "add_only": True,
         },
         "engines": [
-            {"name": "A-choice-tree", "path": "harness/src/explore.rs", "serves_properties": ["C01","C02","C03","C04","C05","C06","C07","C08","C09"], "kind_free_text": "stateless exhaustive enumeration of a tree of named finite choice points, one execution of the real crate per path; deviation-bounded and full-product modes"},
+            {"name": "A-choice-tree", "path": "harness/src/explore.rs", "serves_properties": ["C01","C02","C03","C04","C05","C06","C07","C08","C09","C10","C11","C12","C18"], "kind_free_text": "stateless exhaustive enumeration of a tree of named finite choice points, one execution of the real crate per path; deviation-bounded and full-product modes"},
             {"name": "B-stateright", "path": "harness/src/models", "serves_properties": [], "kind_free_text": "stateright 0.31 BFS over a reference model; every transition replays the call history on the real object"},
             {"name": "C-lattice", "path": "c20/run.py", "serves_properties": ["C20"], "kind_free_text": "explicit enumeration of feature configurations / generated client programs with cargo as transition function"},
         ],
